@@ -110,6 +110,10 @@ _tok('amb_nested_inl2', [Rule('start', [[N('_c'), N('_c')]]), Rule('_c', [[N('x'
 _tok('amb_null', [Rule('start', [[N('o'), A, N('o')]]), Rule('o', [[], [A], [N('o'), N('o2')]]), Rule('o2', [[B]])], ['A', 'B'], {'ambiguous', 'amb'})
 
 
+# two derivations share one inlined subtree that is the first kept child of each (the tree builder must not extend its list in place)
+_tok('amb_shared_inl', [Rule('start', [[N('a')], [N('b')]]), Rule('a', [[N('_x'), C]]), Rule('b', [[N('_x'), C]]), Rule('_x', [[A, B], [A]])],
+     ['A', 'B', 'C'], {'ambiguous', 'amb'})
+
 # a rule of four symbols whose ambiguity lies among the first ones: the ambiguous intermediate node is nested below unambiguous ones
 _tok('amb4', [Rule('start', [[N('a'), N('b'), B, B]]), Rule('a', [[A], [A, A]]), Rule('b', [[A], [A, A]])], ['A', 'B'], {'ambiguous', 'amb', 'cnf_ok'})
 _tok('amb4n', [Rule('start', [[N('a'), N('b'), B, C]]), Rule('a', [[A], []]), Rule('b', [[A], []])], ['A', 'B', 'C'], {'ambiguous', 'amb'})
